@@ -14,17 +14,21 @@ Spec == Init /\ [][Next]_c
 (* pathcase: none | plain (not ignored) | ign1 | ign2 | ign3 (ignored directory 1..3 levels above) | ignfile |
              ign_norespect (ignored path but --respect-ignores not given) | cfgdir (directory with its own stylua.toml) |
              ecdir (directory with its own .editorconfig, none in the working directory) *)
+(* inputs that differ from their formatted text; "longtail": a first line that needs formatting, then a last line of *)
+(* several kilobytes without a final newline (the shape of a vendored / minified file: larger than any stdout buffer, *)
+(* not ending in a line terminator)                                                                                  *)
+Differing == {"unformatted", "crlf", "nonl", "large", "longtail"}
 Passthrough == c.pathcase \in {"ign1", "ign2", "ign3", "ignfile"}
 ParseOk == c.input # "invalid"
 Expect == [ passthrough |-> Passthrough,
             exit |-> IF Passthrough THEN 0
                      ELSE IF ~ParseOk THEN 2
                      ELSE IF c.mode = "write" THEN 0
-                     ELSE IF c.input \in {"unformatted", "crlf", "nonl", "large"} THEN 1 ELSE 0,
+                     ELSE IF c.input \in Differing THEN 1 ELSE 0,
             stdout |-> IF Passthrough /\ c.mode = "write" THEN "input"
                        ELSE IF Passthrough THEN "empty"
                        ELSE IF ~ParseOk THEN "empty"
                        ELSE IF c.mode = "write" THEN "fmt"
-                       ELSE IF c.input \in {"unformatted", "crlf", "nonl", "large"} THEN "diff" ELSE "empty" ]
+                       ELSE IF c.input \in Differing THEN "diff" ELSE "empty" ]
 Emit == PrintT(<<"CASE", ToJson([c |-> c, expect |-> Expect])>>)
 =============================================================================
